@@ -154,7 +154,9 @@ UseForest(n) == n <= 3 \/ Family \in {"deep", "orderdeep"}
 UseExt(n) == Family \notin {"order", "orderdeep"} /\ (n <= 3 \/ (Family = "deep" /\ n <= 4))
 Trees(n) == {p \in [1..n -> 0..(n - 1)] : p[1] = 0 /\ \A k \in 2..n : p[k] < k /\ (UseForest(n) \/ p[k] >= 1)}
 AllKinds == PlainKinds \cup FreeKinds
-KindVecs(n) == {kv \in [1..n -> AllKinds] : kv[1] = "go" /\ Cardinality({k \in 1..n : kv[k] \in FreeKinds}) <= 1}
+\* the configured top package normally has Go files; a recursive one may also be a mere container (no Go files, or only
+\* _test.go files) of the sub-packages it stands for
+KindVecs(n) == {kv \in [1..n -> AllKinds] : kv[1] \in {"go", "empty", "test"} /\ Cardinality({k \in 1..n : kv[k] \in FreeKinds}) <= 1}
 ExclPairs == {<<0, 0>>} \cup {<<e, 0>> : e \in 1..NExcl} \cup {<<0, e>> : e \in 1..NExcl}
                         \cup {<<e, (e % NExcl) + 1>> : e \in 1..NExcl}            \* <<package level, top level>>
 \* explicit tuples (strict values) instead of [k \in 1..n |-> ...]: TLC keeps the latter as closures, which makes
@@ -237,8 +239,11 @@ OrderDeepConfigs(w) ==
 \* special directory names (ext / up) are combined with plain kinds and with recursive on / not written only: the
 \* dimensions are all present, their full cross product is not needed
 SpecialName(w) == \E k \in 1..w.n : w.ext[k] \/ w.up[k]
-WellFormed(w) == /\ \A k \in 1..w.n : (w.on[k] => w.kind[k] = "go") /\ ExtOK(w, k)
+RecOf(w, k) == w.rec[k] = "T" \/ (w.rec[k] = "U" /\ w.root.rec = "T")
+WellFormed(w) == /\ \A k \in 1..w.n : (w.on[k] => (w.kind[k] = "go" \/ (w.kind[k] \in {"empty", "test"} /\ RecOf(w, k)))) /\ ExtOK(w, k)
                  /\ SpecialName(w) => \A k \in 1..w.n : w.kind[k] \in PlainKinds /\ w.rec[k] # "F"
+                 \* container packages are explored without exclusion lists and special names (dimensions, not products)
+                 /\ (\E k \in 1..w.n : w.on[k] /\ w.kind[k] # "go") => ~SpecialName(w) /\ w.root.excl = 0 /\ \A k \in 1..w.n : w.excl[k] = 0
 
 \* ------------------------------------------------------------------ choosing the world
 Absent == [present |-> FALSE, marker |-> 0, rec |-> "U", all |-> "U", excl |-> 0, prefix |-> ""]
